@@ -108,6 +108,7 @@ def evaluate(item):
         p = signac.init_project(d)
         jobs = [p.open_job(sp).init() for sp in sps]
         ids = [j.id for j in jobs]
+        p0 = p  # the session that created the jobs (warm caches)
         p = signac.Project(d)
         # sub-selections
         sels = [None]
@@ -175,7 +176,6 @@ def evaluate(item):
         # a short history in the session that created the jobs: remove one, re-key another, then ask for the schema of a
         # subset that still names the old ids - only jobs that exist now may contribute
         if len(sps) >= 2 and not viol:
-            p0 = jobs[0]._project
             try:
                 jobs[-1].remove()
                 remaining = list(sps[:-1])
